@@ -337,6 +337,8 @@ def check_pair(s1, s2, scoring, d, e, acc, modes=("full", "hirschberg", "local")
         if verdict:
             acc.fail(f"{op}: {verdict}" + (" [asymmetric scoring dict]" if asym else ""), case, detail)
         got_scores[mode] = score
+        if local and not verdict and part == "pair" and not asym and len(s1) + len(s2) >= 4:
+            _check_sw_app(s1, s2, scoring, S_impl, d, e, score, acc, case)
         acc.outcome((mode, path, starts[0], nties > 1, verdict))
         if nties > 1:
             acc.count("optimum_is_tied")
@@ -346,6 +348,38 @@ def check_pair(s1, s2, scoring, d, e, acc, modes=("full", "hirschberg", "local")
             acc.fail("global_pairwise: score differs between Hirschberg (HIRSCHBERG_LIMIT=0) and full DP",
                      {"part": part, "s1": s1, "s2": s2, "scoring": scoring, "d": d, "e": e, "mode": "both"},
                      {"full": a, "hirschberg": b})
+
+
+_SW_APPS = {}
+
+
+def _check_sw_app(s1, s2, scoring, S_impl, d, e, local_score, acc, case):
+    """the smith_waterman app with the same scoring dict and penalties reports the score local_pairwise reports; also
+    with a penalty of exactly zero (an argument value that must not be taken for 'not given')"""
+    from cogent3 import get_app, make_unaligned_seqs
+
+    seqs = make_unaligned_seqs({"a": s1, "b": s2}, moltype="dna")
+    for dd, ee in ((d, e), (d, 0), (0, e)):
+        key = (scoring, dd, ee)
+        if key not in _SW_APPS:
+            _SW_APPS[key] = get_app("smith_waterman", score_matrix=S_impl, insertion_penalty=dd, extension_penalty=ee)
+        if (dd, ee) == (d, e):
+            want = local_score
+        else:
+            ref, _ = _pairwise(s1, s2, S_impl, dd, ee, True, HUGE)
+            if ref[0] != "ok":
+                continue
+            want = ref[2]
+        try:
+            r = _SW_APPS[key](seqs)
+            got = float(r.info["align_params"]["sw_score"])
+        except Exception as ex:  # noqa: BLE001
+            acc.fail(f"smith_waterman app: raised {type(ex).__name__}", dict(case, penalties=[dd, ee]), {"error": str(ex)[:200]})
+            continue
+        if abs(got - want) > TOL_SAME:
+            zero = " [a penalty of zero]" if 0 in (dd, ee) else ""
+            acc.fail("smith_waterman app: sw_score differs from local_pairwise with the same scoring dict and penalties" + zero,
+                     dict(case, penalties=[dd, ee]), {"app": got, "local_pairwise": want})
 
 
 # ----------------------------------------------------------------------------- part: p2m
